@@ -135,13 +135,15 @@ Decoy(c, I) == IF Trip(c, I) THEN Pickup(c) - 3 ELSE Far(c) + 5
 
 --------------------------------------------------------------------------------
 (* State machine.  s = [tripped, closed]: the device's flag and net.switch.closed of the device's switch.           *)
-(* An action is a record [op, I, J]: for op = "eval" the harness writes current level I into the cell the device   *)
-(* has to read (table of c.scen, row c.sw) and J into every other cell, then calls calculate_protection_times.     *)
+(* An action is a record [op, I, J, at]: for op = "eval" the harness writes current level I into the cell the        *)
+(* device has to read (table of c.scen, row c.sw) and J into every other cell, then calls                             *)
+(* calculate_protection_times.  at = "I is a threshold level" (fed as exactly the threshold float; all other levels   *)
+(* may be fed with a seeded offset of less than half a level in the thorough tier, which changes no stage).          *)
 S0 == [tripped |-> FALSE, closed |-> TRUE]
-OpReset == [op |-> "reset", I |-> 0, J |-> 0]
-OpApply == [op |-> "apply", I |-> 0, J |-> 0]
-OpDescribe == [op |-> "describe", I |-> 0, J |-> 0]
-OpEval(c, I) == [op |-> "eval", I |-> I, J |-> Decoy(c, I)]
+OpReset == [op |-> "reset", I |-> 0, J |-> 0, at |-> FALSE]
+OpApply == [op |-> "apply", I |-> 0, J |-> 0, at |-> FALSE]
+OpDescribe == [op |-> "describe", I |-> 0, J |-> 0, at |-> FALSE]
+OpEval(c, I) == [op |-> "eval", I |-> I, J |-> Decoy(c, I), at |-> I \in Thresholds(c)]
 Ops(c, mode) == {OpReset, OpApply, OpDescribe} \cup {OpEval(c, I) : I \in Probes(c, mode)}
 Step(c, s, a) ==
   CASE a.op = "reset"    -> [s EXCEPT !.tripped = FALSE]                       \* fuse.py:80, ocrelay.py:188
